@@ -39,7 +39,7 @@
 (*                                                                         *)
 (* State: firstRun, users, sessions (token -> expiry) with their persisted  *)
 (* copy store, clock -- and last, the request just served with its         *)
-(* outcome.  Install, Login, Logout, Tick and Restart move the state;      *)
+(* outcome.  FinishInstall, Login, Logout, Tick, Restart move the state;      *)
 (* Serve(route, request) is explored from every reachable state for every  *)
 (* route and every request shape.                                          *)
 (***************************************************************************)
@@ -269,8 +269,16 @@ Init == /\ last = None /\ focus = None
            \/ firstRun = FALSE /\ users \in {{}, {Admin}}
 
 \* The install wizard creates the first account and leaves first-run mode
-\* (controlinstall.go handleInstallConfigure).
-Install == /\ last = None /\ firstRun /\ users = {}
+\* (controlinstall.go handleInstallConfigure) -- in the running process, no
+\* restart.  The state it leads to IS the state of an installation that was
+\* booted with the account in its configuration file (same variables, same
+\* values): "once an administrator account exists" does not depend on how the
+\* account came to exist, so the outcomes admitted after FinishInstall are
+\* exactly those of the configured boot.  The harness replays the vectors of
+\* that state against both histories (arena R: configured boot; arenas S and
+\* H: first run taken through the wizard, H through the real wizard call).
+FinishInstall ==
+           /\ last = None /\ firstRun /\ users = {}
            /\ firstRun' = FALSE /\ users' = {Admin}
            /\ UNCHANGED <<sessions, store, hist, clock, last, focus>>
 
@@ -354,7 +362,7 @@ EmitTables == /\ \E t \in Targets(focus) : \E m \in Methods, sp \in Spellings :
 \* A state in which a request has been served is a leaf: the guard is hoisted
 \* out of the quantifiers so that TLC does not enumerate the request universe
 \* there.
-Skeleton == \/ Install
+Skeleton == \/ FinishInstall
             \/ \E t \in Tokens : Login(t) \/ Logout(t)
             \/ Tick
             \/ Restart
